@@ -4,9 +4,9 @@ from ..areas import httpflow as hf
 from ..extract import httpflow as xhf
 
 CONN = {0: None, 1: b"keep-alive", 2: b"close", 3: b"Keep-Alive"}
-STATUSES = [b"200 OK", b"200 OK", b"201 Created", b"404 Not Found", b"500 Internal Server Error", b"299 Custom Reason Text", b"202 Accepted"]
+STATUSES = [b"200 Tr\xe8s bien", b"404 Nicht gef\xfcnden \xa9", 200, 404, 201, 500, b"200 OK", b"200 OK", b"201 Created", b"404 Not Found", b"500 Internal Server Error", b"299 Custom Reason Text", b"202 Accepted"]
 HNAMES = [b"X-A", b"x-lower-name", b"Content-Type", b"Set-Cookie", b"Set-Cookie", b"ETag", b"X-UPPER", b"x_under", b"Cache-Control", b"X-1a2b"]
-HVALS = [b"1", b"text/plain; charset=utf-8", b"a=b; Path=/", b"W/\"xyz\"", b"no-cache, no-store", b"v with  two spaces", b"caf\xe9", b"0", b"chunked-not", b"close?"]
+HVALS = [b"", b"\xc3\xa9", b"1", b"text/plain; charset=utf-8", b"a=b; Path=/", b"W/\"xyz\"", b"no-cache, no-store", b"v with  two spaces", b"caf\xe9", b"0", b"chunked-not", b"close?"]
 NASTY = [b"\r\n", b"0\r\n\r\n", b"HTTP/1.1 200 OK\r\n\r\n", b"\n", b"\r", b"5\r\nhello\r\n", b"Content-Length: 3\r\n", b"\x00\xff"]
 
 
@@ -101,7 +101,7 @@ class C18(core.Check):
             elif k < 0.4:
                 pieces.append(rng.choice(NASTY))
             else:
-                pieces.append(bytes(rng.choice([rng.randrange(256), 97 + rng.randrange(26)]) for _ in range(rng.choice([1, 2, 3, 9, 15, 16, 17, 40, 300]))))
+                pieces.append(bytes(rng.choice([rng.randrange(256), 97 + rng.randrange(26)]) for _ in range(rng.choice([1, 2, 3, 9, 15, 16, 17, 40, 255, 256, 300, 4095, 4096, 4097] if rng.random() < 0.15 else [1, 2, 3, 9, 15, 16, 17, 40, 300]))))
         retval = None
         if rng.random() < 0.15:
             retval = rng.choice([b"", b"tail", b"\r\n"])
@@ -135,22 +135,72 @@ class C18(core.Check):
             cuts = sorted(rng.randrange(0, total + 1) for _ in range(rng.choice([0, 0, 1, 2, 5])))
             gap = rng.choice([0, 1, 1, 2, 3])
             quota = rng.choice([None, None, None, 1, 2, 7, 64, 1000])
-            yield (reqs, apps, (cuts, gap), quota)
+            if rng.random() < 0.15:
+                # several connections on the same Server object: at once from different addresses, or one after the other from the same address;
+                # sometimes a client goes away in the middle of a request
+                conns = [(reqs, apps, None)]
+                for _ in range(rng.choice([1, 1, 2])):
+                    m2 = rng.choice([1, 2, 3])
+                    r2 = [(1 if rng.random() < 0.7 else 0, rng.choice([0, 1, 2, 3]), None if rng.random() < 0.7 else rng.choice([1, 30])) for _ in range(m2)]
+                    conns.append((r2, [self._app(rng) for _ in range(m2)], None))
+                if rng.random() < 0.35:
+                    j = rng.randrange(len(conns))
+                    total_j = sum(len(hf.c18_request_bytes(r, "/c%d" % j)) for r in conns[j][0])
+                    conns[j] = (conns[j][0], conns[j][1], rng.randrange(1, max(2, total_j)))
+                yield ("multi", conns, rng.choice([0, 0, 1]))
+                continue
+            sched = (cuts, gap) if rng.random() < 0.7 else (cuts, gap, rng.choice([1, 7, 16, 100, 8096]))
+            if tier == "thorough" and rng.random() < 0.004:
+                yield ("loop", (reqs, apps, (cuts, gap), None))       # the same kind of case over real loopback sockets
+                continue
+            yield (reqs, apps, sched, quota)
+
+    @staticmethod
+    def _conn_req(reqs, apps):
+        return ([(v, CONN[c]) for v, c, _ in reqs], [(st, [(n, v) for n, v in hs], cl, list(ps), rv or b"") for st, hs, cl, ps, rv in apps])
+
+    @staticmethod
+    def _complete(reqs, eof_at, j):
+        """how many requests of the stream are completely delivered before the client goes away"""
+        if eof_at is None:
+            return len(reqs)
+        n, pos = 0, 0
+        for r in reqs:
+            pos += len(hf.c18_request_bytes(r, "/c%d" % j))
+            if pos > eof_at:
+                break
+            n += 1
+        return n
 
     def request(self, case):
-        reqs, apps, _, _ = case
-        return ("c18", [(v, CONN[c]) for v, c, _ in reqs],
-                [(st, [(n, v) for n, v in hs], cl, list(ps), rv or b"") for st, hs, cl, ps, rv in apps])
+        if case[0] == "loop":
+            return ("c18",) + self._conn_req(case[1][0], case[1][1])
+        if case[0] == "multi":
+            out = []
+            for j, (reqs, apps, eof_at) in enumerate(case[1]):
+                n = self._complete(reqs, eof_at, j)
+                out.append((eof_at is not None,) + self._conn_req(reqs[:n], apps[:n]))
+            return ("c18m", out)
+        return ("c18",) + self._conn_req(case[0], case[1])
 
     # ------------------------------------------------------------------ real code
     def run_impl(self, case):
+        if case[0] == "loop":
+            try:
+                o = hf.c18_run_loopback(case[1])
+            except hf.LoopbackInfra as ex:
+                raise core.Infra(str(ex))
+            return (o["raw"], o["closed"], o["calls"])
+        if case[0] == "multi":
+            outs = hf.c18_run_multi(case[1], case[2])
+            return [("eof", o["closed"]) if conn[2] is not None else (o["raw"], o["closed"], o["calls"]) for conn, o in zip(case[1], outs)]
         o = hf.c18_run(case)
         if o["pending"]:
             raise core.Infra("server still has unsent bytes after the cycle budget")
         return (o["raw"], o["closed"], o["calls"])
 
     # ------------------------------------------------------------------ the property
-    def oracle(self, case, obs):
+    def _oracle1(self, case, obs):
         reqs, apps, _, _ = case
         raw, closed, calls = obs
         bad = []
@@ -171,9 +221,13 @@ class C18(core.Check):
             if p["delimited"] == "close" and stays_open:
                 bad.append("not-self-delimiting")
                 return bad          # everything behind it is swallowed by this body: nothing more can be judged
-            code, _, reason = status.decode("latin-1").partition(" ")
-            if p["status"] != int(code) or p["reason"] != reason.strip():
-                bad.append("status-differs")
+            if isinstance(status, int):        # the app gave only a code: the phrase is the server's
+                if p["status"] != status or not p["reason"]:
+                    bad.append("status-differs")
+            else:
+                code, _, reason = status.decode("latin-1").partition(" ")
+                if p["status"] != int(code) or p["reason"] != reason.strip():
+                    bad.append("status-differs")
             got = [(k.lower(), v) for k, v in p["headers"]]
             for name, value in headers:
                 if (name.decode("latin-1").lower(), value.decode("latin-1")) not in got:
@@ -201,7 +255,7 @@ class C18(core.Check):
                 return i
         return None
 
-    def known(self, case, obs, clauses):
+    def _known1(self, case, obs, clauses):
         if clauses == ["not-self-delimiting"] and self._f29_at(case) is not None:
             # every response before it must have been fine (the oracle stops at the first undelimited one) and that one is the F29 request
             reqs, apps, _, _ = case
@@ -210,11 +264,12 @@ class C18(core.Check):
                 return "C18-K1"
         return None
 
-    def nontrivial(self, case, obs):
+    def _nontrivial1(self, case, obs):
         return obs[2] >= 2 or any(sum(1 for p in a[3] if p) >= 2 for a in case[1])
 
-    def features(self, case, obs):
-        reqs, apps, (cuts, gap), quota = case
+    def _features1(self, case, obs):
+        reqs, apps, quota = case[0], case[1], case[3]
+        cuts, gap = case[2][0], case[2][1]
         f = [f"reqs={min(len(reqs), 5)}", f"answered={min(obs[2], 5)}", "closed" if obs[1] else "open",
              "quota" if quota else "noquota", f"gap={gap}", "fragmented" if cuts else "whole"]
         for i in range(obs[2]):
@@ -229,8 +284,9 @@ class C18(core.Check):
             f.append("f29-trigger")
         return f
 
-    def shrink(self, case):
-        reqs, apps, (cuts, gap), quota = case
+    def _shrink1(self, case):
+        reqs, apps, quota = case[0], case[1], case[3]
+        cuts, gap = case[2][0], case[2][1]
         if cuts or quota is not None or gap != 1:
             yield (reqs, apps, ([], 1), None)
         for i in range(len(reqs)):
@@ -254,6 +310,91 @@ class C18(core.Check):
 
     def mutate(self, rng, case):
         return list(self.shrink(case))[:40]
+
+
+    # ------------------------------------------------------------------ single connection / several connections on one Server
+    @staticmethod
+    def _as_single(conn):
+        return (conn[0], conn[1], ([], 1), None)
+
+    def oracle(self, case, obs):
+        try:
+            if case[0] == "loop":
+                return self._oracle1(case[1], obs)
+            if case[0] != "multi":
+                return self._oracle1(case, obs)
+            seen = []
+            for conn, o in zip(case[1], obs):
+                if conn[2] is not None:
+                    cl = [] if o[1] else ["dropped-connection-not-closed"]
+                else:
+                    cl = self._oracle1(self._as_single(conn), o)
+                seen += [c for c in cl if c not in seen]
+            return seen
+        except (IndexError, KeyError, TypeError, ValueError, AttributeError) as ex:
+            return ["observation-not-accountable:" + type(ex).__name__]
+
+    def known(self, case, obs, clauses):
+        if case[0] == "loop":
+            return self._known1(case[1], obs, clauses)
+        if case[0] != "multi":
+            return self._known1(case, obs, clauses)
+        kid = None
+        for conn, o in zip(case[1], obs):
+            if conn[2] is not None:
+                if not o[1]:
+                    return None
+                continue
+            cl = self._oracle1(self._as_single(conn), o)
+            if cl:
+                kid = self._known1(self._as_single(conn), o, cl)
+                if kid is None:
+                    return None
+        return kid
+
+    def nontrivial(self, case, obs):
+        if case[0] == "loop":
+            return self._nontrivial1(case[1], obs)
+        if case[0] == "multi":
+            return True
+        return self._nontrivial1(case, obs)
+
+    def features(self, case, obs):
+        if case[0] == "loop":
+            return ["real-loopback-sockets"] + self._features1(case[1], obs)
+        if case[0] != "multi":
+            f = self._features1(case, obs)
+            if len(case[2]) > 2:
+                f.append(f"bs={case[2][2]}")
+            if any(isinstance(a[0], int) for a in case[1]):
+                f.append("status:int")
+            if any(not isinstance(a[0], int) and any(c > 127 for c in a[0]) for a in case[1]):
+                f.append("status:latin-1-reason")
+            return f
+        f = ["multi", f"conns={len(case[1])}", "interleaved" if case[2] == 0 else "same-address-one-after-the-other"]
+        if any(c[2] is not None for c in case[1]):
+            f.append("multi:client-goes-away-mid-request")
+        return f
+
+    def shrink(self, case):
+        if case[0] == "loop":
+            for c in self._shrink1(case[1]):
+                yield ("loop", c)
+            return
+        if case[0] != "multi":
+            yield from self._shrink1(case)
+            return
+        conns, mode = case[1], case[2]
+        for j in range(len(conns)):
+            if len(conns) > 1:
+                yield ("multi", conns[:j] + conns[j + 1:], mode)
+        for j, conn in enumerate(conns):
+            if conn[2] is None:
+                for c in self._shrink1(self._as_single(conn)):
+                    if c[2] == ([], 1) and c[3] is None:
+                        yield ("multi", conns[:j] + [(c[0], c[1], None)] + conns[j + 1:], mode)
+        if len(conns) == 1 and conns[0][2] is None:
+            yield self._as_single(conns[0])
 
 
 CHECK = C18()
